@@ -161,6 +161,9 @@ func (fc *FnCtx) hasQuantOrSpec() bool { return len(fc.specsUsed) > 0 }
 // discharge one obligation with the solver portfolio.
 func (e *Engine) discharge(ob *Obligation, idx int) {
 	fc := ob.fc
+	if ob.Status == "failed" && ob.Kind == "frame" {
+		return
+	}
 	goal := implies(ob.Guard, ob.Cond)
 	if goal == "true" || ob.Cond == "true" {
 		ob.Status = "trivial"
@@ -174,6 +177,37 @@ func (e *Engine) discharge(ob *Obligation, idx int) {
 	}
 	f1 := write("", false, false)
 	t0 := time.Now()
+	trySplit := func() bool {
+		if len(ob.Cases) <= 1 || len(ob.Cases) > 8 {
+			return false
+		}
+		cases := fc.expandCases(ob.Cases)
+		for ci, c := range cases {
+			fq := base + fmt.Sprintf(".case%d.smt2", ci)
+			os.WriteFile(fq, []byte(fc.queryWith(ob, false, false, []string{c})), 0o644)
+			r, _, _ := runSolver(solvers[0], fq, e.timeout)
+			if r != "unsat" {
+				r, _, _ = runSolver(solvers[1], fq, e.timeout)
+			}
+			if r != "unsat" && fc.hasQuantOrSpec() {
+				os.WriteFile(fq, []byte(fc.queryWith(ob, true, false, []string{c})), 0o644)
+				r, _, _ = runSolver(solvers[0], fq, e.timeout)
+			}
+			if r != "unsat" {
+				return false
+			}
+			os.Remove(fq)
+		}
+		ob.Status, ob.Solver, ob.Time = "proved", "z3-new/cvc5 (case split on block entry edges)", time.Since(t0).Seconds()
+		ob.Strategy = "split"
+		return true
+	}
+	if e.hints[baseName(ob.Name)] == "split" && ob.Kind != "canary" {
+		if trySplit() {
+			os.Remove(f1)
+			return
+		}
+	}
 	type attempt struct {
 		s    solverSpec
 		file string
@@ -286,29 +320,8 @@ func (e *Engine) discharge(ob *Obligation, idx int) {
 		return
 	}
 	// last resort: split on the incoming edges of the obligation's block (each case is a smaller problem)
-	if len(ob.Cases) > 1 && len(ob.Cases) <= 8 {
-		all := true
-		for ci, c := range ob.Cases {
-			fq := base + fmt.Sprintf(".case%d.smt2", ci)
-			os.WriteFile(fq, []byte(fc.queryWith(ob, false, false, []string{c})), 0o644)
-			r, _, _ := runSolver(solvers[0], fq, e.timeout)
-			if r != "unsat" {
-				r, _, _ = runSolver(solvers[1], fq, e.timeout)
-			}
-			if r != "unsat" && fc.hasQuantOrSpec() {
-				os.WriteFile(fq, []byte(fc.queryWith(ob, true, false, []string{c})), 0o644)
-				r, _, _ = runSolver(solvers[0], fq, e.timeout)
-			}
-			if r != "unsat" {
-				all = false
-				break
-			}
-			os.Remove(fq)
-		}
-		if all {
-			ob.Status, ob.Solver, ob.Time = "proved", "z3-new/cvc5 (case split on block entry edges)", time.Since(t0).Seconds()
-			return
-		}
+	if trySplit() {
+		return
 	}
 	ob.Status = "unknown"
 }
@@ -326,4 +339,59 @@ func (e *Engine) dischargeAll(obls []*Obligation) {
 		}(i, ob)
 	}
 	wg.Wait()
+}
+
+// expandCases refines block-entry cases: a case that is a reach variable defined as a disjunction of edges is
+// replaced by its disjuncts (two levels), so that each query follows one path family.
+func (fc *FnCtx) expandCases(cases []string) []string {
+	defs := map[string]string{}
+	for _, a := range fc.asserts {
+		if strings.HasPrefix(a, "(= R") {
+			rest := a[3:]
+			if i := strings.Index(rest, " "); i > 0 {
+				defs[rest[:i]] = strings.TrimSuffix(rest[i+1:], ")")
+			}
+		}
+	}
+	expand := func(c string) []string {
+		d, ok := defs[c]
+		if !ok || !strings.HasPrefix(d, "(or ") {
+			return []string{c}
+		}
+		// split top-level disjuncts
+		body := d[4 : len(d)-1]
+		var out []string
+		depth, start := 0, 0
+		for i := 0; i < len(body); i++ {
+			switch body[i] {
+			case '(':
+				depth++
+			case ')':
+				depth--
+			case ' ':
+				if depth == 0 {
+					if i > start {
+						out = append(out, body[start:i])
+					}
+					start = i + 1
+				}
+			}
+		}
+		if start < len(body) {
+			out = append(out, body[start:])
+		}
+		return out
+	}
+	cur := cases
+	for level := 0; level < 2; level++ {
+		var next []string
+		for _, c := range cur {
+			next = append(next, expand(c)...)
+		}
+		if len(next) > 16 {
+			break
+		}
+		cur = next
+	}
+	return cur
 }
